@@ -14,7 +14,7 @@ import engine_corr as ec
 import gen as G
 import lib
 
-GEN = {"flags": 0.1, "excl": 0.15, "recursion": 0.35}
+GEN = {"flags": 0.1, "excl": 0.15, "recursion": 0.35, "undef": 0.04}
 
 
 def repetitions(P, rules):
